@@ -21,6 +21,8 @@ fn main() {
         ("c04", "record") => yv::c04::record(&args),
         ("c04", "replay") => yv::c04::replay(&args),
         ("c18", "record") => yv::c18::record(&args),
+        ("c19", "record") => yv::c19::record(&args),
+        ("c19", "replay") => yv::c19::replay(&args),
         ("c18", "replay") => yv::c18::replay(&args),
         _ => { eprintln!("unknown command {:?}", &a[..2]); std::process::exit(2); }
     }
